@@ -4,6 +4,7 @@ import (
 	"fmt"
 	"go/token"
 	"go/types"
+	"gverif/internal/load"
 	"sort"
 	"strings"
 
@@ -197,7 +198,7 @@ func describeVal(v ssa.Value) string {
 func fieldName(fa *ssa.FieldAddr) string {
 	if p, ok := fa.X.Type().Underlying().(*types.Pointer); ok {
 		if s, ok := p.Elem().Underlying().(*types.Struct); ok {
-			return s.Field(fa.Field).Name()
+			return load.Current.BaselineField(p.Elem(), s.Field(fa.Field).Name())
 		}
 	}
 	return "?"
@@ -971,7 +972,7 @@ func c18Chain(e *Env) {
 								}
 							}
 							if f, ok := v.(*ssa.Field); ok {
-								if s, ok := f.X.Type().Underlying().(*types.Struct); ok && s.Field(f.Field).Name() == "version" {
+								if s, ok := f.X.Type().Underlying().(*types.Struct); ok && load.Current.BaselineField(f.X.Type(), s.Field(f.Field).Name()) == "version" {
 									ok3 = true
 								}
 							}
